@@ -21,6 +21,8 @@ def model_staking_UnsafeProtocolChainConfig : Fields := [("account_address_prefi
 
 def model_staking_UnsafeProtocolFeeConfig : Fields := [("dao_treasury_fee", "Uint128"), ("treasury_address", "Option<String>")]
 
+def model_staking_attrs : Fields := [("ExecuteMsg", "#[cw_serde]"), ("QueryMsg", "#[cw_serde] #[derive(QueryResponses)]"), ("SudoMsg", "#[cw_serde]"), ("IBCLifecycleComplete", "#[cw_serde]"), ("MigrateMsg", "#[cw_serde]"), ("InstantiateMsg", "#[cw_serde]"), ("UnsafeNativeChainConfig", "#[cw_serde]"), ("UnsafeProtocolChainConfig", "#[cw_serde]"), ("UnsafeProtocolFeeConfig", "#[cw_serde]"), ("Config", "#[cw_serde]"), ("NativeChainConfig", "#[cw_serde]"), ("ProtocolChainConfig", "#[cw_serde]"), ("ProtocolFeeConfig", "#[cw_serde]"), ("State", "#[cw_serde]"), ("UnstakeRequest", "#[cw_serde]"), ("IbcWaitingForReply", "#[cw_serde]"), ("IBCTransfer", "#[cw_serde]"), ("PacketLifecycleStatus", "#[cw_serde]"), ("Batch", "#[derive(Serialize,Deserialize,Clone,Debug,Eq,PartialEq,JsonSchema)]"), ("BatchStatus", "#[derive(Serialize,Deserialize,Clone,Debug,Eq,PartialEq,JsonSchema)]")]
+
 def model_staking_entry_points : List String := ["execute", "instantiate", "migrate", "query", "reply", "sudo"]
 
 def model_staking_execute : Variants := [
@@ -65,10 +67,43 @@ def model_staking_query : Variants := [
   ("ibc_queue", [("start_after", "Option<u64>"), ("limit", "Option<u32>")]),
   ("ibc_reply_queue", [("start_after", "Option<u64>"), ("limit", "Option<u32>")])]
 
+def model_staking_storage_keys : Fields := [("<fn>", "IndexedMap:unstake_requests"), ("<index>", "Index:unstake_requests_by_user"), ("ADMIN", "Admin:admin"), ("BATCHES", "Map:batches"), ("CONFIG", "Item:config"), ("IBC_WAITING_FOR_REPLY", "Map:ibc_waiting_for_reply"), ("INFLIGHT_PACKETS", "Map:inflight"), ("PENDING_BATCH_ID", "Item:pending_batch_id"), ("STATE", "Item:state")]
+
+def model_staking_stored_Batch : Fields := [("id", "u64"), ("batch_total_liquid_stake", "Uint128"), ("expected_native_unstaked", "Option<Uint128>"), ("received_native_unstaked", "Option<Uint128>"), ("liquid_unstake_requests", "Option<Map<String,LiquidUnstakeRequest>>"), ("unstake_requests_count", "Option<u64>"), ("next_batch_action_time", "Option<u64>"), ("status", "BatchStatus")]
+
+def model_staking_stored_BatchStatus : Variants := [
+  ("Pending", []),
+  ("Submitted", []),
+  ("Received", [])]
+
+def model_staking_stored_Config : Fields := [("native_chain_config", "NativeChainConfig"), ("protocol_chain_config", "ProtocolChainConfig"), ("protocol_fee_config", "ProtocolFeeConfig"), ("liquid_stake_token_denom", "String"), ("monitors", "Vec<Addr>"), ("batch_period", "u64"), ("stopped", "bool")]
+
+def model_staking_stored_IBCTransfer : Fields := [("sequence", "u64"), ("amount", "Coin"), ("receiver", "String"), ("status", "PacketLifecycleStatus")]
+
+def model_staking_stored_IbcWaitingForReply : Fields := [("amount", "Coin"), ("receiver", "String")]
+
+def model_staking_stored_NativeChainConfig : Fields := [("account_address_prefix", "String"), ("validator_address_prefix", "String"), ("token_denom", "String"), ("validators", "Vec<Addr>"), ("unbonding_period", "u64"), ("staker_address", "Addr"), ("reward_collector_address", "Addr")]
+
+def model_staking_stored_PacketLifecycleStatus : Variants := [
+  ("sent", []),
+  ("ack_success", []),
+  ("ack_failure", []),
+  ("timed_out", [])]
+
+def model_staking_stored_ProtocolChainConfig : Fields := [("account_address_prefix", "String"), ("ibc_channel_id", "String"), ("ibc_token_denom", "String"), ("minimum_liquid_stake_amount", "Uint128"), ("oracle_address", "Option<Addr>")]
+
+def model_staking_stored_ProtocolFeeConfig : Fields := [("dao_treasury_fee", "Uint128"), ("treasury_address", "Option<Addr>")]
+
+def model_staking_stored_State : Fields := [("total_native_token", "Uint128"), ("total_liquid_stake_token", "Uint128"), ("pending_owner", "Option<Addr>"), ("owner_transfer_min_time", "Option<Timestamp>"), ("total_reward_amount", "Uint128"), ("rate", "Uint128"), ("total_fees", "Uint128"), ("ibc_id_counter", "u64")]
+
+def model_staking_stored_UnstakeRequest : Fields := [("batch_id", "u64"), ("user", "String"), ("amount", "Uint128")]
+
 def model_staking_sudo : Variants := [
   ("ibc_lifecycle_complete", [("0", "IBCLifecycleComplete")])]
 
 def model_treasury_SwapRoute : Fields := [("pool_id", "u64"), ("token_in_denom", "String"), ("token_out_denom", "String")]
+
+def model_treasury_attrs : Fields := [("State", "#[cw_serde]"), ("Config", "#[cw_serde]"), ("ExecuteMsg", "#[cw_serde]"), ("QueryMsg", "#[cw_serde] #[derive(QueryResponses)]"), ("InstantiateMsg", "#[cw_serde]"), ("MigrateMsg", "#[cw_serde]"), ("SwapRoute", "#[cw_serde]")]
 
 def model_treasury_entry_points : List String := ["execute", "instantiate", "migrate", "query"]
 
@@ -87,6 +122,12 @@ def model_treasury_migrate : Fields := []
 
 def model_treasury_query : Variants := [
   ("config", [])]
+
+def model_treasury_storage_keys : Fields := [("ADMIN", "Admin:admin"), ("CONFIG", "Item:config"), ("STATE", "Item:state")]
+
+def model_treasury_stored_Config : Fields := [("trader", "Addr"), ("allowed_swap_routes", "Vec<Vec<SwapRoute>>")]
+
+def model_treasury_stored_State : Fields := [("pending_owner", "Option<Addr>"), ("owner_transfer_min_time", "Option<Timestamp>")]
 
 /-- the source variant (serde name) each constructor of the model's `ExecMsg` stands for -/
 def execTag : ExecMsg → String
@@ -187,5 +228,24 @@ theorem treasury_execute_covered :
     names treasury_execute = texecSamples.map texecTag ∧ ∀ m : MW.Treasury.TExec, texecTag m ∈ names treasury_execute := by
   rw [treasury_execute_eq]
   exact ⟨texec_tags_onto.symm, texec_tag_pinned⟩
+
+
+/-! ## stored layouts, storage keys and serde attributes -/
+
+theorem staking_storage_eq : staking_storage_keys = model_staking_storage_keys := by decide +kernel
+theorem treasury_storage_eq : treasury_storage_keys = model_treasury_storage_keys := by decide +kernel
+theorem staking_layout_eq :
+    staking_stored_Config = model_staking_stored_Config ∧ staking_stored_NativeChainConfig = model_staking_stored_NativeChainConfig
+    ∧ staking_stored_ProtocolChainConfig = model_staking_stored_ProtocolChainConfig
+    ∧ staking_stored_ProtocolFeeConfig = model_staking_stored_ProtocolFeeConfig
+    ∧ staking_stored_State = model_staking_stored_State ∧ staking_stored_UnstakeRequest = model_staking_stored_UnstakeRequest
+    ∧ staking_stored_IbcWaitingForReply = model_staking_stored_IbcWaitingForReply
+    ∧ staking_stored_IBCTransfer = model_staking_stored_IBCTransfer
+    ∧ staking_stored_PacketLifecycleStatus = model_staking_stored_PacketLifecycleStatus
+    ∧ staking_stored_Batch = model_staking_stored_Batch ∧ staking_stored_BatchStatus = model_staking_stored_BatchStatus := by
+  decide +kernel
+theorem treasury_layout_eq :
+    treasury_stored_State = model_treasury_stored_State ∧ treasury_stored_Config = model_treasury_stored_Config := by decide +kernel
+theorem serde_attrs_eq : staking_attrs = model_staking_attrs ∧ treasury_attrs = model_treasury_attrs := by decide +kernel
 
 end MW.Interface
